@@ -245,6 +245,10 @@ def opHll (s : DState) (h : Hll.St) (bh : HashCfg) (op : String) (a : List Nat) 
   | "hll.addh", [k] => match Hll.addHashed h k with
     | some h' => .upd (.hll h' bh)
     | none => .panic
+  | "hll.extend", xs =>
+    match xs.foldlM (fun h k => Hll.addHashed h (bh.hash [k])) h with
+    | some h' => .upd (.hll h' bh)
+    | none => .panic
   | "hll.addmany", [seed, n] =>
     let rec go (fuel : Nat) (r : Rng) (h : Hll.St) : Option Hll.St :=
       match fuel with
@@ -403,6 +407,15 @@ def opRes (r : Reservoir.St Rng) (op : String) (a : List Nat) : Out :=
   | "res.add", [x] => match Reservoir.add resRng r x with
     | some r' => .upd (.res r')
     | none => .panic
+  | "res.extend", xs =>
+    let rec go : List Nat → Reservoir.St Rng → Option (Reservoir.St Rng)
+      | [], r => some r
+      | x :: rest, r => match Reservoir.add resRng r x with
+        | some r' => go rest r'
+        | none => none
+    match go xs r with
+    | some r' => .upd (.res r')
+    | none => .panic
   | "res.get", [] => .ans (s!"{r.k} {r.i} : " ++ " ".intercalate (r.res.toList.map toString))
   | "res.empty", [] => .ans (b2s (Reservoir.isEmpty r))
   | "res.clear", [] => .upd (.res (Reservoir.clear r))
@@ -425,7 +438,24 @@ def opLossy (l : Lossy.St) (eps : Float) (op : String) (a : List Nat) (raw : Lis
   | "lossy.clone", [j] => .mk j (.lossy l eps)
   | _, _ => .bad
 
-def opHeap (h : CmsHeap.St) (op : String) (a : List Nat) : Out :=
+/-- `id:class:c0,c1,…` items of `heap.extend` -/
+def parseHeapItem (tok : String) : Option (Nat × List Nat) :=
+  match tok.splitOn ":" with
+  | [id, _class, cols] => do
+    let i ← id.toNat?
+    let cs ← splitNats cols
+    pure (i, cs)
+  | _ => none
+
+def opHeap (h : CmsHeap.St) (op : String) (a : List Nat) (raw : List String) : Out :=
+  if op == "heap.extend" then
+    match raw.mapM parseHeapItem with
+    | none => .bad
+    | some items =>
+      match items.foldlM (fun h (it : Nat × List Nat) => CmsHeap.add h it.1 it.2) h with
+      | some h' => .upd (.heap h')
+      | none => .panic
+  else
   match op, a with
   | "heap.add", x :: _class :: cols => match CmsHeap.add h x cols with
     | some h' => .upd (.heap h')
@@ -528,7 +558,7 @@ def step1 (s : DState) (toks : List String) : DState × String :=
           | .set l => opSet s l op args
           | .res r => opRes r op args
           | .lossy l eps => opLossy l eps op args raw
-          | .heap h => opHeap h op args
+          | .heap h => opHeap h op args raw
           | .td d => opTd d op args raw
           | .poisoned => .bad
         match out with
